@@ -19,6 +19,7 @@ type TrieCase struct {
 	Queries []string
 	Kind    string // generator kind, for the distribution
 	VKind   string
+	NoBig   bool // the model builds without 257-bit nodes (three-array legacy conversion)
 }
 
 func hx(b []byte) string {
@@ -77,7 +78,11 @@ func (c *TrieCase) WriteCase(w *bufio.Writer) {
 	if c.IDs != nil {
 		hv = 1
 	}
-	fmt.Fprintf(w, "T %s %s %s %s %s %d %s\n", c.ID, optc(c.Opt[0]), optc(c.Opt[1]), optc(c.Opt[2]), optc(c.Opt[3]), hv, c.Enc)
+	nb := ""
+	if c.NoBig {
+		nb = " nobig"
+	}
+	fmt.Fprintf(w, "T %s %s %s %s %s %d %s%s\n", c.ID, optc(c.Opt[0]), optc(c.Opt[1]), optc(c.Opt[2]), optc(c.Opt[3]), hv, c.Enc, nb)
 	for i, k := range c.Keys {
 		v := "-"
 		if bs != nil {
